@@ -180,7 +180,9 @@ def run(run: common.Run):
                                       kernel_shape=case['kernel'], proc_crs='auto', param=False, threads=case['threads'],
                                       max_block_mem=fusion.block_mem_for(hv, ph, pw, src.px, ref.px, proc_ref),
                                       model_config=dict(mask_partial=True, upsampling=case['upsampling'],
-                                                        r2_inpaint_thresh=None))
+                                                        r2_inpaint_thresh=None),
+                                      # every third case: validity carried by an internal mask band instead of a nodata value
+                                      out_profile=dict(nodata=None) if case['i'] % 3 == 2 else None)
             except BlockSizeError:
                 run.hist['block smaller than the overlap: skipped'] += 1
                 continue
